@@ -14,6 +14,7 @@ import (
 	"strings"
 	"sync"
 	"sync/atomic"
+	"time"
 
 	baseerrors "github.com/grailbio/base/errors"
 	"github.com/grailbio/bigslice"
@@ -277,6 +278,65 @@ func pragmas(n *Node) []bigslice.Pragma {
 
 type rfState struct {
 	pos, step int
+	started   bool
+	ended     bool
+}
+
+// Gauge is the process-wide gauge of concurrently active gauged tasks.
+type Gauge struct {
+	mu                 sync.Mutex
+	Active, Exclusive  int
+	Max                int
+	Starts             int
+	ExclusiveStarts    int
+	Violations         []string
+}
+
+// TheGauge is shared by all programs of a process.
+var TheGauge = &Gauge{}
+
+// Reset clears the gauge.
+func (g *Gauge) Reset() {
+	g.mu.Lock()
+	g.Active, g.Exclusive, g.Max, g.Starts, g.ExclusiveStarts, g.Violations = 0, 0, 0, 0, 0, nil
+	g.mu.Unlock()
+}
+
+// Snapshot returns a copy.
+func (g *Gauge) Snapshot() Gauge {
+	g.mu.Lock()
+	defer g.mu.Unlock()
+	c := Gauge{Active: g.Active, Exclusive: g.Exclusive, Max: g.Max, Starts: g.Starts, ExclusiveStarts: g.ExclusiveStarts}
+	c.Violations = append(c.Violations, g.Violations...)
+	return c
+}
+
+func (g *Gauge) start(exclusive bool) {
+	g.mu.Lock()
+	defer g.mu.Unlock()
+	g.Starts++
+	if exclusive {
+		g.ExclusiveStarts++
+		if g.Active > 0 {
+			g.Violations = append(g.Violations, fmt.Sprintf("an exclusive task started while %d other tasks were running", g.Active))
+		}
+		g.Exclusive++
+	} else if g.Exclusive > 0 {
+		g.Violations = append(g.Violations, "a task started while an exclusive task was running")
+	}
+	g.Active++
+	if g.Active > g.Max {
+		g.Max = g.Active
+	}
+}
+
+func (g *Gauge) end(exclusive bool) {
+	g.mu.Lock()
+	g.Active--
+	if exclusive {
+		g.Exclusive--
+	}
+	g.mu.Unlock()
 }
 
 type obsState struct {
@@ -286,6 +346,11 @@ type obsState struct {
 // Build constructs the bigslice.Slice of a program.
 func Build(spec *Spec, args []bigslice.Slice) bigslice.Slice {
 	env := EnvOf(spec.RunID)
+	if spec.PanicOnBuild > 0 {
+		if n := atomic.AddInt64(env.counter(-5000), 1); int(n) == spec.PanicOnBuild {
+			panic(fmt.Sprintf("%s: panic while building the slice (construction %d)", InjectedMsg, n))
+		}
+	}
 	slices := make([]bigslice.Slice, len(spec.Nodes))
 	for i := range spec.Nodes {
 		slices[i] = buildNode(env, spec, i, slices, args)
@@ -318,10 +383,22 @@ func buildNode(env *Env, spec *Spec, id int, slices []bigslice.Slice, args []big
 			rows := n.ShardRows[shard]
 			want := a[2].Len()
 			left := len(rows) - st.pos
+			gauged := n.Fn != nil && n.Fn.Gauge
+			if gauged && !st.started {
+				st.started = true
+				TheGauge.start(n.Exclusive)
+			}
+			if n.Fn != nil && n.Fn.SleepUs > 0 {
+				time.Sleep(time.Duration(n.Fn.SleepUs) * time.Microsecond)
+			}
 			ret := func(k int, err error) []reflect.Value {
 				ev := reflect.Zero(typErr)
 				if err != nil {
 					ev = reflect.ValueOf(&err).Elem()
+					if gauged && !st.ended {
+						st.ended = true
+						TheGauge.end(n.Exclusive)
+					}
 				}
 				return []reflect.Value{reflect.ValueOf(k), ev}
 			}
